@@ -363,8 +363,15 @@ func (g *G) expr2(t Ty, depth int) *Expr {
 			if g.F.Floats && g.R.Intn(3) == 0 {
 				tt = TFloat
 			}
+			eq := op == "==" || op == "!="
+			if eq && !g.F.EqIntFloat {
+				g.noIll++ // both sides really have the same numeric type (int == float is quarantined)
+			}
 			l, r := g.Expr(tt, depth-1), g.Expr(tt, depth-1)
-			if g.F.Floats && (op != "==" && op != "!=" || g.F.EqIntFloat) && g.R.Intn(5) == 0 {
+			if eq && !g.F.EqIntFloat {
+				g.noIll--
+			}
+			if g.F.Floats && (!eq || g.F.EqIntFloat) && g.R.Intn(5) == 0 {
 				r = g.Expr(TFloat, depth-1)
 				l = g.Expr(TInt, depth-1)
 			}
@@ -406,12 +413,14 @@ func (g *G) expr2(t Ty, depth int) *Expr {
 		n := g.R.Intn(4)
 		e := &Expr{K: "arr"}
 		for i := 0; i < n; i++ {
-			e.A = append(e.A, g.Expr(et, depth-1))
+			e.A = append(e.A, g.arg(et, depth-1)) // elements keep the element type (see arg)
 		}
 		return e
 	case TObj:
 		e := &Expr{K: "obj", Keys: []string{"a", "s"}}
+		g.noIll++
 		e.A = []*Expr{g.Expr(TInt, depth-1), g.strOrInt(depth - 1)}
+		g.noIll--
 		return e
 	case TNull:
 		return lit("null")
@@ -578,7 +587,7 @@ func (g *G) stmt(depth int, retT Ty) *Stmt {
 		if g.F.Strings && g.R.Intn(3) == 0 {
 			at, et = TArrStr, TStr
 		}
-		arr := g.Expr(at, 2)
+		arr := g.arg(at, 2) // the iterable is an array of the element type the loop variable is given
 		s := &Stmt{K: "for", E: arr}
 		g.push()
 		s.Name = g.fresh("it")
@@ -645,7 +654,7 @@ func (g *G) declStmt(t Ty) *Stmt {
 		}
 		e = &Expr{K: "arr"}
 		for i := 1 + g.R.Intn(3); i > 0; i-- {
-			e.A = append(e.A, g.Expr(et, 2))
+			e.A = append(e.A, g.arg(et, 2))
 		}
 	}
 	g.declare(n, t)
